@@ -326,6 +326,61 @@ def big_values(rng):
     return out
 
 
+
+# ---- observations: what a property's correspondence compares (DESIGN 6.2) ----
+def o_full(c, r):
+    return r
+
+
+def o_class(c, r):
+    return cls(r)
+
+
+def o_class_rem(c, r):
+    """class, and the consumed extent when accepted"""
+    return (cls(r), get_rem(r) if cls(r) == 'Ok' else None)
+
+
+def o_enc_len(c, r):
+    """PANIC vs return, number of octets emitted, get_length, overwrite log"""
+    if not r.startswith('Ok '):
+        return r.split(' ')[0] + (' ' + r.split(' glen=')[1] if ' glen=' in r else '')
+    parts = r[3:].split(' ')
+    return ('Ok', len(parts[0]) // 2) + tuple(parts[1:])
+
+
+def o_avps_tags(c, r):
+    """per element Ok / Err, and the remaining length"""
+    if cls(r) != 'List':
+        return cls(r)
+    return ([e[:2] for e in lib_split(strip_rem(r)[1:-1])], get_rem(r))
+
+
+def o_seq(c, r):
+    return [o_class_rem(c, x) for x in r.split(' | ')]
+
+
+def o_err_count(c, r):
+    """accept / reject, and the number of errors"""
+    if cls(r) in ('Err', 'ErrEmpty'):
+        return ('Err', len(lib_split_commas(r[5:-1])))
+    return cls(r)
+
+
+def lib_split_commas(s):
+    parts, depth, start = [], 0, 0
+    if s == '':
+        return []
+    for i, ch in enumerate(s):
+        if ch in '([':
+            depth += 1
+        elif ch in ')]':
+            depth -= 1
+        elif ch == ',' and depth == 0:
+            parts.append(s[start:i]); start = i + 1
+    parts.append(s[start:])
+    return parts
+
 # =============================================================================== C02
 def run_c02(ctx):
     rep = Report()
@@ -645,7 +700,7 @@ def run_c07(ctx):
     for n in [1, 1000, 1016, 1017, 1018, 1500]:
         cases.append('HIDE\tHostName(%s)\t73\t01020304\t\t%s' % (rbytes(rng, n).hex(), rbytes(rng, 16).hex()))
         tags.append('hide_%d' % n); expect.append('fit' if 6 + n <= 1023 else 'oversize')
-    res = run_compare(ctx, rep, cases, tags, lambda c, r: r)
+    res = run_compare(ctx, rep, cases, tags, o_enc_len)
     for w in IMPLS:
         for i, c in enumerate(cases):
             r = res[w][i]
@@ -683,10 +738,10 @@ def run_c08(ctx):
     items = [(t, b) for (t, b) in corpus.dec_corpus(rng, ctx.scale(6000, 80000), ctx.thorough)]
     opts = [rng.randrange(8) for _ in items]
     s1 = ['DEC\t%d\t%s' % (o, b.hex()) for o, (_, b) in zip(opts, items)]
-    r1 = run_compare(ctx, rep, s1, [t for (t, _) in items], lambda c, r: r if cls(r) == 'Ok' else cls(r))
+    r1 = run_compare(ctx, rep, s1, [t for (t, _) in items], o_class_rem)
     sfx = [rbytes(rng, rng.choice([1, 2, 6, 12, 40])) for _ in items]
     s2 = ['DEC\t%d\t%s' % (o, (b + s).hex()) for o, (_, b), s in zip(opts, items, sfx)]
-    r2 = run_compare(ctx, rep, s2, ['sfx_' + t for (t, _) in items], lambda c, r: r if cls(r) == 'Ok' else cls(r))
+    r2 = run_compare(ctx, rep, s2, ['sfx_' + t for (t, _) in items], o_class_rem)
     nacc = 0
     for w in IMPLS:
         for i, (t, b) in enumerate(items):
@@ -711,8 +766,8 @@ def run_c08(ctx):
             big.append((b, rbytes(rng, n)))
     sb1 = ['DEC\t7\t%s' % b.hex() for (b, _) in big]
     sb2 = ['DEC\t7\t%s' % (b + x).hex() for (b, x) in big]
-    rb1 = run_compare(ctx, rep, sb1, ['big_base'] * len(big), lambda c, r: r if cls(r) == 'Ok' else cls(r))
-    rb2 = run_compare(ctx, rep, sb2, ['big_suffix'] * len(big), lambda c, r: r if cls(r) == 'Ok' else cls(r))
+    rb1 = run_compare(ctx, rep, sb1, ['big_base'] * len(big), o_class_rem)
+    rb2 = run_compare(ctx, rep, sb2, ['big_suffix'] * len(big), o_class_rem)
     for w in IMPLS:
         for i, (b, x) in enumerate(big):
             a, y = rb1[w][i], rb2[w][i]
@@ -736,7 +791,7 @@ def run_c08(ctx):
                 g.append(data_text(P, ln, tid, sid, nsnr, off, payload))
         groups.append(g)
         single += ['ENC\t%s\t' % m for m in g]
-    e = run_compare(ctx, rep, single, ['enc_for_seq'] * len(single), lambda c, r: r)
+    e = run_compare(ctx, rep, single, ['enc_for_seq'] * len(single), o_enc_len)
     pos = 0
     seq_cases, seq_exp = [], []
     for g in groups:
@@ -750,7 +805,7 @@ def run_c08(ctx):
             hx += r[3:]
         if ok:
             seq_cases.append('DECSEQ\t7\t' + hx)
-    rs = run_compare(ctx, rep, seq_cases, ['decseq'] * len(seq_cases), lambda c, r: r)
+    rs = run_compare(ctx, rep, seq_cases, ['decseq'] * len(seq_cases), o_seq)
     # each message decoded alone must equal the corresponding element of the sequence
     pos = 0
     alone = []
@@ -786,8 +841,8 @@ def run_c08(ctx):
         recsets.append(recs)
     flat = ['AVPS\t' + r.hex() for rs_ in recsets for r in rs_]
     cat = ['AVPS\t' + b''.join(rs_).hex() for rs_ in recsets]
-    rf = run_compare(ctx, rep, flat, ['avp_record'] * len(flat), lambda c, r: r)
-    rc = run_compare(ctx, rep, cat, ['avp_concat'] * len(cat), lambda c, r: r)
+    rf = run_compare(ctx, rep, flat, ['avp_record'] * len(flat), o_avps_tags)
+    rc = run_compare(ctx, rep, cat, ['avp_concat'] * len(cat), o_avps_tags)
     for w in IMPLS:
         pos = 0
         for i, rs_ in enumerate(recsets):
@@ -827,8 +882,8 @@ def run_c09(ctx):
             pre.append(rbytes(rng, rng.choice([65534, 65535, 65536, 65537, 70000, 131073])))
     a = ['ENC\t%s\t' % v for v in vals]
     b = ['ENC\t%s\t%s' % (v, p.hex()) for v, p in zip(vals, pre)]
-    ra = run_compare(ctx, rep, a, ['enc_empty'] * len(a), lambda c, r: r)
-    rb = run_compare(ctx, rep, b, ['enc_prefix'] * len(b), lambda c, r: r)
+    ra = run_compare(ctx, rep, a, ['enc_empty'] * len(a), o_enc_len)
+    rb = run_compare(ctx, rep, b, ['enc_prefix'] * len(b), o_enc_len)
     for w in IMPLS:
         for i in range(len(vals)):
             x, y = ra[w][i], rb[w][i]
@@ -841,8 +896,8 @@ def run_c09(ctx):
     pa = [rbytes(rng, rng.randrange(1, 40)) for _ in avs]
     a2 = ['ENCA\t%s\t' % v for v in avs]
     b2 = ['ENCA\t%s\t%s' % (v, p.hex()) for v, p in zip(avs, pa)]
-    ra2 = run_compare(ctx, rep, a2, ['enca_empty'] * len(a2), lambda c, r: r)
-    rb2 = run_compare(ctx, rep, b2, ['enca_prefix'] * len(b2), lambda c, r: r)
+    ra2 = run_compare(ctx, rep, a2, ['enca_empty'] * len(a2), o_enc_len)
+    rb2 = run_compare(ctx, rep, b2, ['enca_prefix'] * len(b2), o_enc_len)
     for w in IMPLS:
         for i in range(len(avs)):
             x, y = ra2[w][i].split(' glen=')[0], rb2[w][i].split(' glen=')[0]
@@ -854,8 +909,8 @@ def run_c09(ctx):
     s = ['ENCS\t%s\t%s' % (p.hex(), '\t'.join(g)) for g, p in zip(groups, gp)]
     wv = ['ENCW\t%s\t%s' % (p.hex(), '\t'.join(g)) for g, p in zip(groups, gp)]
     singles = ['ENC\t%s\t' % m for g in groups for m in g]
-    rs = run_compare(ctx, rep, s, ['encs'] * len(s), lambda c, r: r)
-    rw = run_compare(ctx, rep, wv, ['encw'] * len(wv), lambda c, r: r)
+    rs = run_compare(ctx, rep, s, ['encs'] * len(s), o_enc_len)
+    rw = run_compare(ctx, rep, wv, ['encw'] * len(wv), o_enc_len)
     r1 = ctx.runner.run(singles, IMPLS)
     for w in IMPLS:
         pos = 0
@@ -913,20 +968,20 @@ def run_c10(ctx):
     items = corpus.noncanonical(rng, ctx.scale(2500, 30000)) + corpus.dec_corpus(rng, ctx.scale(5000, 60000), ctx.thorough)
     opts = [rng.randrange(8) for _ in items]
     s1 = ['DEC\t%d\t%s' % (o, b.hex()) for o, (_, b) in zip(opts, items)]
-    r1 = run_compare(ctx, rep, s1, [t for (t, _) in items], lambda c, r: r if cls(r) == 'Ok' else cls(r))
+    r1 = run_compare(ctx, rep, s1, [t for (t, _) in items], o_class)
     for w in IMPLS:
         idx = [i for i, (t, b) in enumerate(items)
                if cls(r1[w][i]) == 'Ok' and (b[0] & 1 or not (b[0] & 0x40))]   # control, or data without the O bit
         ms = [msg_of(r1[w][i]) for i in idx]
         s2 = ['ENC\t%s\t' % m for m in ms]
-        r2 = run_compare(ctx, rep, s2, ['reenc'] * len(s2), lambda c, r: r, which=(w,))
+        r2 = run_compare(ctx, rep, s2, ['reenc'] * len(s2), o_class, which=(w,))
         s3, keep = [], []
         for j, r in enumerate(r2[w]):
             if not r.startswith('Ok '):
                 rep.fail('a decoded message could not be re-encoded', case=s1[idx[j]], executor=w, decoded=ms[j][:300], result=r[:100])
                 continue
             s3.append('DEC\t7\t' + r[3:]); keep.append(j)
-        r3 = run_compare(ctx, rep, s3, ['redec'] * len(s3), lambda c, r: r, which=(w,))
+        r3 = run_compare(ctx, rep, s3, ['redec'] * len(s3), o_class, which=(w,))
         s4, keep2 = [], []
         for k, r in enumerate(r3[w]):
             j = keep[k]
@@ -937,7 +992,7 @@ def run_c10(ctx):
             if ms[j].startswith('C(') and ctrl_parts(msg_of(r))[0] != len(r2[w][j][3:]) // 2:
                 rep.fail('re-decoded control Length does not track the new size', case=s1[idx[j]], executor=w, redecoded=r[:300])
             s4.append('ENC\t%s\t' % msg_of(r)); keep2.append(j)
-        r4 = run_compare(ctx, rep, s4, ['reenc2'] * len(s4), lambda c, r: r, which=(w,))
+        r4 = run_compare(ctx, rep, s4, ['reenc2'] * len(s4), o_class, which=(w,))
         for k, r in enumerate(r4[w]):
             j = keep2[k]
             if r != r2[w][j]:
@@ -982,7 +1037,7 @@ def run_c11(ctx):
         if len(v) // 2 + len(args[i][2]) > 950:
             args[i] = (args[i][0], args[i][1], b'', args[i][3])
     h = ['HIDE\t%s\t%s\t%s\t%s\t%s' % (v, a[0].hex(), a[1].hex(), a[2].hex(), a[3].hex()) for v, a in zip(vals, args)]
-    rh = run_compare(ctx, rep, h, ['hide_' + avp_kind(v) for v in vals], lambda c, r: r)
+    rh = run_compare(ctx, rep, h, ['hide_' + avp_kind(v) for v in vals], lambda c, r: r[:9])
     for w in IMPLS:
         ok = [i for i in range(len(vals)) if rh[w][i].startswith('Ok Hidden(')]
         for i in range(len(vals)):
@@ -995,9 +1050,9 @@ def run_c11(ctx):
                 rep.fail('reveal(hide(a)) != a', case=h[i][:400], executor=w, hidden=rh[w][i][:200], revealed=rr[w][k][:300])
         # over the wire
         ea = ['ENCA\t%s\t' % rh[w][i][3:] for i in ok]
-        re_ = run_compare(ctx, rep, ea, ['wire_enc'] * len(ea), lambda c, r: r, which=(w,))
+        re_ = run_compare(ctx, rep, ea, ['wire_enc'] * len(ea), o_enc_len, which=(w,))
         da = ['AVPS\t' + r[3:].split(' ')[0] for r in re_[w]]
-        rd = run_compare(ctx, rep, da, ['wire_dec'] * len(da), lambda c, r: r, which=(w,))
+        rd = run_compare(ctx, rep, da, ['wire_dec'] * len(da), o_avps_tags, which=(w,))
         rv2, keep = [], []
         for k, i in enumerate(ok):
             x = rd[w][k]
@@ -1188,7 +1243,7 @@ def run_c14(ctx):
         for o in range(8):
             cases.append('DEC\t%d\t%s' % (o, b.hex())); tags.append(t)
         cases.append('DEC0\t%s' % b.hex()); tags.append(t + '/try_read')
-    res = run_compare(ctx, rep, cases, tags, lambda c, r: r if cls(r) == 'Ok' else cls(r), nontrivial=lambda c, m: True)
+    res = run_compare(ctx, rep, cases, tags, o_class, nontrivial=lambda c, m: True)
     for w in IMPLS:
         R = res[w]
         for k, (t, b) in enumerate(inputs):
@@ -1232,7 +1287,7 @@ def run_c14(ctx):
         b2 = bytes(be(w2, 2) + b[2:])
         pairs.append((bytes(b), b2))
         flips += ['DEC\t0\t' + bytes(b).hex(), 'DEC\t0\t' + b2.hex()]; ftags += ['flip_base', 'flip']
-    rf = run_compare(ctx, rep, flips, ftags, lambda c, r: r if cls(r) == 'Ok' else cls(r))
+    rf = run_compare(ctx, rep, flips, ftags, o_class)
     for w in IMPLS:
         for k in range(len(pairs)):
             a, b = rf[w][2 * k], rf[w][2 * k + 1]
@@ -1273,8 +1328,8 @@ def run_c15(ctx):
             msgs.append((recs, [False] + [bool(mask >> i & 1) for i in range(6)], b''))
     flat = ['AVPS\t' + r.hex() for (recs, _, _) in msgs for r in recs]
     full = ['DEC\t%d\t%s' % (rng.randrange(8) & 5 | 2, ctrl_bytes(b''.join(recs) + tail).hex()) for (recs, _, tail) in msgs]
-    rf = run_compare(ctx, rep, flat, ['record'] * len(flat), lambda c, r: r)
-    rm = run_compare(ctx, rep, full, ['message_%d_records' % len(m[0]) for m in msgs], lambda c, r: r)
+    rf = run_compare(ctx, rep, flat, ['record'] * len(flat), o_avps_tags)
+    rm = run_compare(ctx, rep, full, ['message_%d_records' % len(m[0]) for m in msgs], o_err_count)
     for w in IMPLS:
         pos = 0
         for i, (recs, bad, tail) in enumerate(msgs):
@@ -1315,8 +1370,8 @@ def run_c15(ctx):
         stops.append((recs, body))
     sa = ['AVPS\t' + b''.join(recs).hex() for (recs, _) in stops]
     sb = ['AVPS\t' + body.hex() for (_, body) in stops]
-    ra = run_compare(ctx, rep, sa, ['stop_prefix'] * len(sa), lambda c, r: r)
-    rb = run_compare(ctx, rep, sb, ['stop_full'] * len(sb), lambda c, r: r)
+    ra = run_compare(ctx, rep, sa, ['stop_prefix'] * len(sa), o_avps_tags)
+    rb = run_compare(ctx, rep, sb, ['stop_full'] * len(sb), o_avps_tags)
     for w in IMPLS:
         for i in range(len(stops)):
             pre = lib_split(strip_rem(ra[w][i])[1:-1])
